@@ -12,6 +12,7 @@ pub mod c08;
 pub mod c11;
 pub mod c12;
 pub mod c13;
+pub mod c14;
 pub mod c16;
 pub mod c17;
 pub mod c19;
@@ -37,6 +38,7 @@ pub fn all() -> Vec<Prop> {
         Prop { id: "C08", run: c08::run, replay: c08::replay, rule: c08::RULE, assumptions: &["the expansion table in harness/src/props/c08.rs is my reading of ISO 32000-1 Table A.1 (DESIGN.md Appendix B)"] },
         Prop { id: "C11", run: c11::run, replay: c11::replay, rule: c11::RULE, assumptions: &["object streams and filters are produced by the harness's own writer and encoders"] },
         Prop { id: "C12", run: c12::run, replay: c12::replay, rule: c12::RULE, assumptions: &["outcomes are compared as digests of canonical values or root-cause error kinds (wrappers Try/Shared/FromPrimitive peeled)"] },
+        Prop { id: "C14", run: c14::run, replay: c14::replay, rule: c14::RULE, assumptions: &["same oracle and resource bound as C01", "fragments are written by the harness writer, so the syntax is always valid"] },
         Prop { id: "C16", run: c16::run, replay: c16::replay, rule: c16::RULE, assumptions: &["reference decoders in harness/src/engine/filters.rs follow ISO 32000-1 7.4 (LZW cross-checked against weezl with code size 8 in unit tests)", "flate2/miniz_oxide is a correct zlib implementation"] },
         Prop { id: "C17", run: c17::run, replay: c17::replay, rule: c17::RULE, assumptions: &["corpus files are copies of /repo/files kept under /verif/corpus/files"] },
         Prop { id: "C19", run: c19::run, replay: c19::replay, rule: c19::RULE, assumptions: &["simple fonts are generated without /MissingWidth, so the width outside the table is 0", "fonts are read through get::<Font> from a file written by the harness"] },
